@@ -19,6 +19,11 @@ open Acra.Py Acra.Lemmas.Ch10 Acra
 theorem udp_eq_sound (a b : Model.Ch10UDP.State) (h : Model.Ch10UDP.eq a b = true) :
     (Model.Ch10UDP.pack a).2 = (Model.Ch10UDP.pack b).2 := Lemmas.Ch10UDP.udp_eq_sound a b h
 
+/-- non-vacuity: two format-1 objects that differ only in stale format-3 attributes compare equal -/
+example : Model.Ch10UDP.eq { Model.Ch10UDP.fresh with sequence := 0xABCDEF, payload := [1, 2, 3] }
+    { Model.Ch10UDP.fresh with sequence := 0xABCDEF, payload := [1, 2, 3], sourceid := 5, offset_pkt_start := some 3 } = true := by
+  decide
+
 /-- decode(encode(a)) == a, formats 1 and 3: for every well-formed header, whatever state the decoding
     object was in -/
 theorem udp_eq_decode_fmt1 (a t : Model.Ch10UDP.State) (h : Lemmas.Ch10UDP.WF1 a) :
@@ -31,6 +36,9 @@ theorem udp_eq_decode_fmt1 (a t : Model.Ch10UDP.State) (h : Lemmas.Ch10UDP.WF1 a
   rw [hp, hu]
   simp [Model.Ch10UDP.eq, Lemmas.Ch10UDP.dec1, hv, Gen.Ch10UDP.TYPE_SEG, ht1]
 
+example : Lemmas.Ch10UDP.WF1 { Model.Ch10UDP.fresh with sequence := 0xABCDEF, payload := [1, 2, 3] } := by
+  simp [Lemmas.Ch10UDP.WF1, Model.Ch10UDP.fresh, Gen.Ch10UDP.DEFAULT_VERSION, Gen.Ch10UDP.TYPE_FULL]
+
 theorem udp_eq_decode_fmt3 (a t : Model.Ch10UDP.State) (o : Nat) (h : Lemmas.Ch10UDP.WF3 a o) :
     ∃ b, (Model.Ch10UDP.pack a).2 = .ok b ∧ (Model.Ch10UDP.unpack t b).2 = .ok () ∧
       Model.Ch10UDP.eq (Model.Ch10UDP.pack a).1 (Model.Ch10UDP.unpack t b).1 = true := by
@@ -40,6 +48,10 @@ theorem udp_eq_decode_fmt3 (a t : Model.Ch10UDP.State) (o : Nat) (h : Lemmas.Ch1
   refine ⟨_, by rw [hp], by rw [hu], ?_⟩
   rw [hp, hu]
   simp [Model.Ch10UDP.eq, Lemmas.Ch10UDP.dec3, hv, ho]
+
+example : Lemmas.Ch10UDP.WF3 { Model.Ch10UDP.fresh with version := 3, sourceid_len := 3, sourceid := 0x5A5, sequence := 0xFFFFF,
+                                                        offset_pkt_start := some 12 } 12 := by
+  simp [Lemmas.Ch10UDP.WF3]
 
 /-- format 2: under the K1 exclusion, and with `channelsequence` — which format 2 does not carry but
     `__eq__` compares — at its default 0 -/
@@ -53,6 +65,13 @@ theorem udp_eq_decode_fmt2_partial (a t : Model.Ch10UDP.State) (h : Lemmas.Ch10U
   refine ⟨_, by rw [hp], by rw [hu], ?_⟩
   rw [hp, hu]
   simp [Model.Ch10UDP.eq, Lemmas.Ch10UDP.dec2, hv, hc, Gen.Ch10UDP.TYPE_SEG]
+
+example : Lemmas.Ch10UDP.WF2 { Model.Ch10UDP.fresh with version := 2, type := 3, sequence := 0xA2CDEF, segmentoffset := 0x123456,
+                                                        channelID := 7, payload := [1, 2, 3, 4, 5] } ∧
+    (0xA2CDEF / 65536 % 16 ≠ 1 ∧ 0xA2CDEF / 65536 % 16 ≠ 3) ∧
+    ({ Model.Ch10UDP.fresh with version := 2, type := 3, sequence := 0xA2CDEF, segmentoffset := 0x123456,
+                                channelID := 7, payload := [1, 2, 3, 4, 5] } : Model.Ch10UDP.State).channelsequence = 0 := by
+  simp [Lemmas.Ch10UDP.WF2, Model.Ch10UDP.fresh]
 
 /-! ### Chapter11 / Chapter10 -/
 /-- `__eq__` compares every attribute, so equal objects are the same object state and encode identically -/
@@ -68,6 +87,9 @@ theorem ch11_eq_sound (a b : Model.Ch11.State) (h : Model.Ch11.eq a b = true) : 
 
 theorem ch11_eq_sound_pack (a b : Model.Ch11.State) (h : Model.Ch11.eq a b = true) :
     Model.Ch11.pack a = Model.Ch11.pack b := by rw [ch11_eq_sound a b h]
+
+example : Model.Ch11.eq { Model.Ch11.fresh with channelID := 0x1234, sequence := 3, payload := [1, 2, 3, 4] }
+    { Model.Ch11.fresh with channelID := 0x1234, sequence := 3, payload := [1, 2, 3, 4] } = true := by decide
 
 /-
   Full statement (FALSE, K5):
@@ -86,6 +108,14 @@ theorem ch11_eq_decode_partial (a t : Model.Ch11.State) (h : Lemmas.Ch11.WFn a) 
   obtain ⟨_, _, _, _, _, _, _, h8, _⟩ := h
   have hf : Spec.Ch11.fillLen (24 + 0 + a.payload.length) = 0 := by unfold Spec.Ch11.fillLen; omega
   simp [Model.Ch11.eq, Lemmas.Ch11.decoded, Lemmas.Ch11.packed, hf, hp, h8, ht]
+
+/-- non-vacuity: an aligned 8-byte payload, every header field at its maximum -/
+example :
+    let a : Model.Ch11.State := { Model.Ch11.fresh with
+      channelID := 0xFFFF, sequence := 0xFF, packetflag := 0x35, datatype := 0x50, relativetimecounter := 0xFFFFFFFFFFFF,
+      payload := [1, 2, 3, 4, 5, 6, 7, 8] }
+    Lemmas.Ch11.WFn a ∧ a.payload.length % 4 = 0 ∧ a.ptptime = ⟨0, 0⟩ ∧ Model.Ch11.fresh.data_checksum_size = 0 := by
+  simp [Lemmas.Ch11.WFn, Model.Ch11.fresh, Gen.Ch11.DEFAULT_SYNCPATTERN, Gen.Ch11.DEFAULT_DATATYPEVERSION, Gen.Ch11.TS_RTC]
 
 /-- K5, negation witness: a one-byte payload.  The packed object has `filler = FF FF FF`, `payload = 01`; the
     decoded one has `filler = ""`, `payload = 01 FF FF FF`: they do not compare equal. -/
@@ -110,6 +140,8 @@ theorem ptp_eq_sound (a b : Model.Ch11.PTP)
   have e2 : _ = _ := Int.ofNat.inj h2
   subst e1; subst e2; rfl
 
+example : Model.Ch11.ptpEq (1700000000, 999999999) (1700000000, 999999999) = true := by decide
+
 theorem ptp_eq_decode (a : Model.Ch11.PTP) (hs : a.seconds < 2 ^ 32) (hn : a.nanoseconds < 2 ^ 32) :
     ∃ b, a.pack = .ok b ∧ Model.Ch11.PTP.unpack b = .ok a := by
   have hf : Fits Gen.Ch11.PTP_pack_fmt0.codes [a.nanoseconds, a.seconds] := by
@@ -117,5 +149,8 @@ theorem ptp_eq_decode (a : Model.Ch11.PTP) (hs : a.seconds < 2 ^ 32) (hn : a.nan
   refine ⟨_, structPack_eq _ _ hf, ?_⟩
   have hu := structUnpack_enc Gen.Ch11.PTP_unpack_fmt0 [a.nanoseconds, a.seconds] hf
   simp [Model.Ch11.PTP.unpack, show Gen.Ch11.PTP_pack_fmt0 = Gen.Ch11.PTP_unpack_fmt0 from rfl, hu]
+
+example : (⟨1700000000, 999999999⟩ : Model.Ch11.PTP).seconds < 2 ^ 32 ∧ (⟨1700000000, 999999999⟩ : Model.Ch11.PTP).nanoseconds < 2 ^ 32 := by
+  decide
 
 end Acra.Props.C14
